@@ -36,7 +36,7 @@ impl Scenario for C36 {
             real: vec!["Session::publish / take_acknowledgements / re_queue_acknowledgements / handle_notification", "SubscriptionEventLoop::run", "SessionEventLoop (connect, create + activate session)", "Session::create_subscription / delete_subscription", "AsyncSecureChannel, client TcpTransport, TransportState"],
             stubbed: vec!["TCP socket (verif::net connector seam)", "server (scripted raw peer; answers CreateSession / ActivateSession / CreateSubscription / DeleteSubscriptions with canned good responses)"],
             assumptions: vec!["security policy None, anonymous user", "connection loss / reconnect is outside the property's quantifier and not injected", "a publish request counts as successful only when the server's PublishResponse left >= 3 ms before the client's deadline, as failed only when no response left before deadline + 3 ms; anything in between is treated as either"],
-            fault_kinds: vec!["publish_fault", "publish_silence", "publish_late", "publish_held", "keep_alive_response", "more_notifications", "subscription_deleted"],
+            fault_kinds: vec!["publish_fault", "publish_silence", "publish_late", "publish_held", "keep_alive_response", "keep_alive_empty_array", "more_notifications", "subscription_deleted"],
         }
     }
     fn runs(&self, tier: Tier) -> u64 {
@@ -67,7 +67,7 @@ impl Scenario for C36 {
                 }
                 2..=4 => steps.push(json!({"op": "wait", "ms": *rng.pick(&[10u64, 50, 100, 300, 700])})),
                 5..=10 => steps.push(json!({"op": "pub", "kind": "notify", "sub": rng.below(3), "delay_ms": *rng.pick(&[0u64, 1, 10, 40]), "more": rng.chance(0.2)})),
-                11..=12 => steps.push(json!({"op": "pub", "kind": "keepalive", "sub": rng.below(3), "delay_ms": *rng.pick(&[0u64, 10, 100])})),
+                11..=12 => steps.push(json!({"op": "pub", "kind": "keepalive", "empty_array": rng.chance(0.5), "sub": rng.below(3), "delay_ms": *rng.pick(&[0u64, 10, 100])})),
                 13..=14 => steps.push(json!({"op": "pub", "kind": "fault", "status": *rng.pick(&["BadTooManyPublishRequests", "BadNoSubscription", "BadInternalError", "BadTimeout", "BadSessionIdInvalid"]), "delay_ms": *rng.pick(&[0u64, 10, 50])})),
                 15..=16 => steps.push(json!({"op": "pub", "kind": "silent"})),
                 17 => steps.push(json!({"op": "pub", "kind": "late", "sub": rng.below(3), "extra_ms": rng.urange(5, 200)})),
@@ -259,7 +259,8 @@ async fn run(plan: &Value, ctx: &mut Ctx) {
             }
             let sid = live[(sub as usize) % live.len()];
             let seq = *subs.get(&sid).unwrap();
-            let data = kind != "keepalive";
+            let data = kind != "keepalive" && kind != "keepalive_empty";
+            let empty_array = kind == "keepalive_empty";
             let notification_data = if data {
                 let dcn = DataChangeNotification {
                     monitored_items: Some(vec![MonitoredItemNotification {
@@ -269,6 +270,10 @@ async fn run(plan: &Value, ctx: &mut Ctx) {
                     diagnostic_infos: None,
                 };
                 Some(vec![ExtensionObject::from_encodable(ObjectId::DataChangeNotification_Encoding_DefaultBinary, &dcn)])
+            } else if empty_array {
+                // the other legal encoding of "no notifications": an array of length 0 instead of a null array
+                ctx.fault("keep_alive_empty_array");
+                Some(Vec::new())
             } else {
                 None
             };
@@ -315,7 +320,10 @@ async fn run(plan: &Value, ctx: &mut Ctx) {
                         let (kind, at, sub, more, status) = match &b {
                             None => ("keepalive".to_string(), now + Duration::from_millis(10), 0u32, false, StatusCode::Good),
                             Some(b) => {
-                                let kind = b["kind"].as_str().unwrap_or("notify").to_string();
+                                let mut kind = b["kind"].as_str().unwrap_or("notify").to_string();
+                                if kind == "keepalive" && b["empty_array"].as_bool().unwrap_or(false) {
+                                    kind = "keepalive_empty".to_string();
+                                }
                                 let delay = Duration::from_millis(b["delay_ms"].as_u64().unwrap_or(0));
                                 let at = match kind.as_str() {
                                     "late" => now + publish_timeout + Duration::from_millis(b["extra_ms"].as_u64().unwrap_or(50)),
@@ -329,7 +337,7 @@ async fn run(plan: &Value, ctx: &mut Ctx) {
                             "silent" => ctx.fault("publish_silence"),
                             "late" => ctx.fault("publish_late"),
                             "fault" => ctx.fault("publish_fault"),
-                            "keepalive" if b.is_some() => ctx.fault("keep_alive_response"),
+                            "keepalive" | "keepalive_empty" if b.is_some() => ctx.fault("keep_alive_response"),
                             _ => {}
                         }
                         if more {
